@@ -198,6 +198,9 @@ def gen_cases(tier, seed):
     step_ = 1 if tier == 'thorough' else 6
     for k, d in enumerate(small[::step_]):
         cases.append({'id': f'small{k}', 'stream': 'small', 'feature': (k % 5 == 0), 'def': d})
+    # bounded-exhaustive hierarchies (shape x explicit initials x source/target of an event per name)
+    for k, d in enumerate(D.forest_exhaustive(step=(2 if tier == 'thorough' else 40))):
+        cases.append({'id': f'forest{k}', 'stream': 'forest', 'feature': (k % 7 == 0), 'def': d})
     # every short event name over {a, B, 2, _}: the snake_case rule (validation.rs) and the derived names
     import itertools
     kk = 0
